@@ -3,7 +3,7 @@
 (* Observation specification of a simulated camera's streaming behaviour   *)
 (* (property C18), total trace spec over the calls a client makes:          *)
 (*   Reset{trig} StartCall StartRet StopCall StopRet Trig SetTrigCall{b} SetTrig{b,rc} *)
-(*   GetFrameCall  GetFrameRet{rc,nbytes,hw}  Hang{kind,ctl,incall}  End    *)
+(*   GetFrameCall  GetFrameRet{rc,nbytes,hw[,exp,past,filled]}  Hang{kind,ctl,incall}  End *)
 (* in linearization order. A frame call "delivers data" iff it returns Ok   *)
 (* with nbytes > 0: a return that carries no data must say so (nbytes = 0). *)
 (***************************************************************************)
@@ -35,6 +35,10 @@ FrameRules(e) ==
        \o If(e.hw >= 0 /\ e.hw <= c.lastHw, "FrameIdNotIncreasing")
        \o If(c.gated /\ c.frames + 1 > c.trigs, "FrameWithoutTrigger")
        \o If(c.gated /\ e.hw >= 0 /\ e.hw + 1 > c.trigs, "FrameIdBeyondTriggers")
+       \* C17 on a camera re-configured while a frame call is pending (the harness compares the caller's buffer with the shape
+       \* reported together with the frame, exp bytes): nothing written past them, filled to the end
+       \o If("past" \in DOMAIN e /\ e.past, "FrameWritesPastImage")
+       \o If("filled" \in DOMAIN e /\ ~e.filled, "FrameNotFilled")
 
 Next1 ==
   /\ l <= Len(Tr) /\ ~done /\ l' = l + 1 /\ done' = FALSE
